@@ -54,7 +54,9 @@ const (
 	checkName = "shape"
 	// slowLimit is the watchdog of DESIGN §1.5: ≥ 1000 × the typical case time (a ≤ 64-rune shaping
 	// takes well under 5 ms). A slow case is re-measured before it is reported.
-	slowLimit = 20 * time.Second
+	slowLimit = 6 * time.Second
+	// hangLimit is the in-process watchdog (see checkCase).
+	hangLimit = 10 * time.Second
 )
 
 func maxLenForTier() int { return ev.Scale(64, 512) }
@@ -507,7 +509,19 @@ func checkCase(t ev.TB, c sc.Case) {
 	if !fuzzWorker {
 		ev.Journal(checkName, c)
 	}
+	// In-process watchdog: a call that has not returned after hangLimit will most likely never
+	// return (a case takes milliseconds; the slowest legitimate ones a second or two). The process
+	// exits so that the journal names the case; the driver re-runs it alone and reports a violation
+	// only if it fails again (a merely slow case on a loaded machine passes that second run).
+	wd := time.AfterFunc(hangLimit, func() {
+		fmt.Fprintf(os.Stderr, "C01 watchdog: shaping did not return within %v; exiting so that the journalled case is attributed\n", hangLimit)
+		if fuzzWorker { // fuzz workers do not journal: leave the decoded case instead
+			ev.WriteFail(checkName, c, fmt.Sprintf("shaping did not return within %v (watchdog)", hangLimit))
+		}
+		os.Exit(3)
+	})
 	s, verdict, pnc, elapsed := execute(&c, face)
+	wd.Stop()
 	if pnc != nil {
 		if id := knownPanic(pnc); id != "" && ev.Known(id) {
 			ev.JournalDone()
@@ -585,6 +599,9 @@ func classify(c *sc.Case, s summary) {
 	if start == end {
 		labels = append(labels, "run:empty")
 	}
+	if c.Synth != nil {
+		labels = append(labels, "font:synth", "synth:"+c.Synth.Kind)
+	}
 	if end-start > 64 {
 		labels = append(labels, "run:long(>64)")
 		if info != nil && info.Traits.Morx {
@@ -661,6 +678,16 @@ func TestPropShape(t *testing.T) {
 	sc.ThePool()
 	rapid.Check(t, func(t *rapid.T) {
 		c := sc.Draw(t, -1, sc.Opts{MaxLen: maxLenForTier()})
+		checkCase(t, c)
+	})
+}
+
+// TestPropShapeSynth: generated fonts (internal/synthfont) whose layout tables stress the internal
+// budgets and limits of the shaper (chains of growing lookups, grow/shrink, long and nested
+// contexts with recursion, long reverse chains, large alternates, many pair classes).
+func TestPropShapeSynth(t *testing.T) {
+	rapid.Check(t, func(t *rapid.T) {
+		c := sc.DrawSynth(t, sc.Opts{})
 		checkCase(t, c)
 	})
 }
